@@ -435,7 +435,11 @@ struct runner
       {
         int id = nextid++;
         vf::extend_case(" push_back(%s,v%d)", pstr(ra, pa).c_str(), id);
-        T &r = ta.push_back(id).get();
+        // both overloads of every value-taking function: T const & (named value) and T && (temporary)
+        bool const lv = g.chance(1, 2);
+        int tmp = id;
+        T &r = lv ? ta.push_back(id).get() : ta.push_back(std::move(tmp)).get();
+        vf::count(lv ? "tree/overload/push_back(T const&)" : "tree/overload/push_back(T&&)", 1);
         ma.ch.push_back(M{id, {}});
         if (&r != &ta.back().get_unsafe().get())
           fail("push_back/returned-reference", "does not refer to the new last child");
@@ -447,7 +451,9 @@ struct runner
         int id = nextid++;
         vf::extend_case(" push_front(%s,v%d)", pstr(ra, pa).c_str(), id);
         int tmp = id;
-        T &r = ta.push_front(std::move(tmp)).get();
+        bool const lv = g.chance(1, 2);
+        T &r = lv ? ta.push_front(id).get() : ta.push_front(std::move(tmp)).get();
+        vf::count(lv ? "tree/overload/push_front(T const&)" : "tree/overload/push_front(T&&)", 1);
         ma.ch.insert(ma.ch.begin(), M{id, {}});
         if (&r != &ta.front().get_unsafe().get())
           fail("push_front/returned-reference", "does not refer to the new first child");
@@ -483,7 +489,13 @@ struct runner
         {
           int id = nextid++;
           vf::extend_case(" insert(%s,%zu,v%d)", pstr(ra, pa).c_str(), pos, id);
-          ta.insert(it, id);
+          bool const lv = g.chance(1, 2);
+          int tmp = id;
+          if (lv)
+            ta.insert(it, id);
+          else
+            ta.insert(it, std::move(tmp));
+          vf::count(lv ? "tree/overload/insert(T const&)" : "tree/overload/insert(T&&)", 1);
           ma.ch.insert(ma.ch.begin() + static_cast<std::ptrdiff_t>(pos), M{id, {}});
           opname = "insert-value";
         }
@@ -1112,7 +1124,8 @@ void body()
         "tree/op/move-ctor-to-root", "tree/op/move-ctor-to-child", "tree/op/pop_back-subtree", "tree/op/pop_front-subtree",
         "tree/op/pop_back-empty", "tree/op/erase", "tree/op/erase-range", "tree/op/erase-range-empty",
         "tree/op/release-subtree", "tree/op/release-and-reattach", "tree/op/clear", "tree/op/sort", "tree/op/sort-predicate",
-        "tree/op/value-set", "tree/op/child-list-ctor", "tree/op/self-copy-assign", "tree/op/self-swap", "tree/op/swap-root-root", "tree/op/swap-inner-inner", "tree/op/swap-root-inner",
+        "tree/op/value-set", "tree/overload/push_front(T const&)", "tree/overload/push_front(T&&)", "tree/overload/push_back(T const&)",
+        "tree/overload/push_back(T&&)", "tree/overload/insert(T const&)", "tree/overload/insert(T&&)", "tree/op/child-list-ctor", "tree/op/self-copy-assign", "tree/op/self-swap", "tree/op/swap-root-root", "tree/op/swap-inner-inner", "tree/op/swap-root-inner",
         "tree/op/swap-inner-root", "tree/op/copy-assign-inner-related", "tree/op/copy-assign-inner-unrelated",
         "tree/op/copy-assign-root-unrelated", "tree/op/copy-assign-root-related", "tree/op/copy-assign-inner-unrelated-grows",
         "tree/op/move-assign-inner-inner", "tree/op/move-assign-root-inner", "tree/op/move-assign-inner-root",
